@@ -67,5 +67,13 @@ func IsNil(node interface{}) bool {
 		return true
 	}
 
-	return reflect.ValueOf(node).IsNil()
+	// Only these kinds can be nil. Asking any other kind (such as a number or
+	// a string that comes out of a query) panics.
+	switch reflect.ValueOf(node).Kind() {
+	case reflect.Chan, reflect.Func, reflect.Interface, reflect.Map,
+		reflect.Ptr, reflect.Slice, reflect.UnsafePointer:
+		return reflect.ValueOf(node).IsNil()
+	}
+
+	return false
 }
